@@ -93,7 +93,7 @@ def run_one(check, sched, known, keep_log=False, timeout=None):
     except RunTimeout:
         res["timeout"] = True
     except Exception as e:
-        lib = _library_frame(e) if check.library_exceptions_are_violations else None
+        lib = _library_frame(e) if (check.library_exceptions_are_violations and not getattr(e, "harness", False)) else None
         if lib is not None and not isinstance(e, MemoryError):
             # the operation was one the property requires to succeed (the engine only issues such operations
             # outside its explicit invalid_request handling): an exception raised inside the library is a violation
